@@ -66,7 +66,7 @@ Theorem multi_delivers_all : forall (quiets : list bool) (Pl : list (list mop)) 
 Proof. exact multi_delivers_all_l. Qed.
 Print Assumptions multi_delivers_all.
 
-(* (6) Ring-buffered asynchronous writer (Set atomic — see Model.v): for every ring size, every interleaving of
+(* (6) Ring-buffered asynchronous writer, Set taken as ONE atomic step (see Model.v and (7)): for every ring size, every interleaving of
    producer Sets and reader TryNexts: what was delivered is a subsequence of what was sent (nothing duplicated,
    nothing altered, order kept); delivered + reported-missed = readIndex <= sent; after the reader has drained
    (at most sent - readIndex further TryNexts) sent - delivered = reported-missed exactly: no silent loss. *)
@@ -80,6 +80,22 @@ Theorem ring_accounts_for_drops : forall (n : nat) (es : list rev),
      length (rsent g') - length (rdeliv g') = sum (ralerts g')).
 Proof. exact ring_accounts_for_drops_l. Qed.
 Print Assumptions ring_accounts_for_drops.
+
+(* (7) FINDING (stuck-in-ring-at-close).  With Set at the granularity of its atomic operations (fetch-add, load,
+   compare-and-swap with retry) statement (6) is FALSE: when the reader discards a stale bucket between a producer's
+   load and its compare-and-swap, the producer re-sends under the next sequence number and the slot at readIndex
+   stays empty; the reader can never pass it (until the writers have gone round the ring again), so messages that
+   were stored successfully are neither delivered nor reported however long the reader drains.  Witness: ring of 2,
+   one producer, 5 messages, explicit interleaving; at the end every Set has returned, delivered + reported = 4 < 5
+   sent, and no number of further TryNexts changes that.  The harness provokes exactly this interleaving on the
+   real diode writer at the start of every run. *)
+Theorem ring_gap_loss_refuted : exists n P es,
+  let m := mrrun (mrinit n P) es in
+  mrquiet (length P) m = true /\
+  forall k, let g := drain k (mbase m) in
+    length (rdeliv g) + sum (ralerts g) < length (rsent g) /\ rr g < rw g.
+Proof. exact ring_gap_loss_refuted_l. Qed.
+Print Assumptions ring_gap_loss_refuted.
 
 (* ---- non-vacuity ---- *)
 Example sink_run_exists :
